@@ -92,7 +92,7 @@ func ruleLock7(c *Ctx) {
 		ord := map[string]int{}
 		for _, call := range core.Calls(fn) {
 			cc, ok := call.(*ssa.Call)
-			if !ok || isUp(cc) || !p.CallIn(cc, readers) {
+			if !ok || isUp(cc) || !txnCallIn(p, cc, readers) {
 				continue
 			}
 			c.Sites++
